@@ -485,7 +485,7 @@ class World:
                 if len(IDs) == 1 and a.get('as_str'):
                     IDs = IDs[0]
             if isinstance(S[a['x']], tmo.MultiStream):
-                S[a['x']].copy_flow(S[a['y']], ..., IDs, remove=a['remove'], exclude=a['excl'])       # (other, phase, IDs)
+                S[a['x']].copy_flow(S[a['y']], ... if a.get('ph', 'all') == 'all' else a['ph'], IDs, remove=a['remove'], exclude=a['excl'])       # (other, phase, IDs)
             else:
                 S[a['x']].copy_flow(S[a['y']], IDs, remove=a['remove'], exclude=a['excl'])
         elif op == 'scale':
@@ -633,8 +633,11 @@ def random_op(universe, rng, st, ops):
         if allf:
             ids = sorted(c for c in pk if c <= nc)
         name = 'copy_flow_multi' if st['st'][x]['k'] == 'm' else 'copy_flow'      # multi-phase receivers: contract on totals only
-        return name, dict(x=x, y=y, ids=ids, all=allf and len(ids) == len([c for c in pk if c <= nc]), remove=rng.random() < 0.5,
-                          excl=(not allf) and rng.random() < 0.3, as_str=rng.random() < 0.5)
+        a = dict(x=x, y=y, ids=ids, all=allf and len(ids) == len([c for c in pk if c <= nc]), remove=rng.random() < 0.5,
+                 excl=(not allf) and rng.random() < 0.3, as_str=rng.random() < 0.5, ph='all')
+        if name == 'copy_flow_multi' and not a['excl'] and rng.random() < 0.4:
+            a['ph'] = rng.choice(st['st'][x]['ph'])         # a phase of the receiver named explicitly
+        return name, a
     if op == 'scale':
         return op, dict(x=x, q=rng.choice([[1, 2], [2, 1], [3, 1], [1, 4], [0, 1], [1, 1]]))
     if op == 'empty':
